@@ -4,6 +4,7 @@ import (
 	"github.com/XiXi-2024/xixi-kv/datafile"
 	"github.com/XiXi-2024/xixi-kv/fio"
 	"github.com/XiXi-2024/xixi-kv/utils"
+	"github.com/XiXi-2024/xixi-kv/vhook"
 	"io"
 	"os"
 	"path/filepath"
@@ -51,16 +52,19 @@ func (db *DB) Merge() error {
 
 	// 由于采用操作临时目录方式, 故允许提前释放锁
 	db.mu.Unlock()
+	vhook.Point("merge.afterRotate")
 
 	// 获取 merge 临时目录路径
 	mergePath := db.mergePath()
 	// 如果存在上次 merge 的残留目录, 将其删除
 	if _, err := os.Stat(mergePath); err == nil {
+		vhook.FS("removeall", mergePath, "")
 		if err := os.RemoveAll(mergePath); err != nil {
 			return err
 		}
 	}
 
+	vhook.FS("mkdir", mergePath, "")
 	// 新建 merge 临时目录
 	if err := os.MkdirAll(mergePath, os.ModePerm); err != nil {
 		return err
@@ -103,6 +107,7 @@ func (db *DB) Merge() error {
 			}
 			// 比较内存中索引的最新数据, 判断是否为有效数据
 			pos := db.index.Get(logRecord.Key)
+			vhook.Point("merge.record")
 			if pos != nil && pos.Fid == dataFile.ID &&
 				pos.Offset == logRecordPos.Offset && pos.BlockID == logRecordPos.BlockID {
 				// 将数据重写到 merge 临时目录中
@@ -128,6 +133,7 @@ func (db *DB) Merge() error {
 		}
 	}
 
+	vhook.Point("merge.beforeMarker")
 	// 在 merge 临时目录创建并打开 merge 完成标识文件
 	mergeFinishedFile, err := datafile.OpenFile(mergePath, 0,
 		datafile.MergeFinishedFileSuffix, db.options.FileIOType)
@@ -141,6 +147,7 @@ func (db *DB) Merge() error {
 	if err := mergeFinishedFile.Close(); err != nil {
 		return err
 	}
+	vhook.Point("merge.done")
 
 	return nil
 }
@@ -197,6 +204,7 @@ func (db *DB) loadMergeFiles() (uint32, error) {
 	}
 
 	defer func() {
+		vhook.FS("removeall", mergePath, "")
 		// 加载完成后删除 merge 目录
 		_ = os.RemoveAll(mergePath)
 	}()
@@ -207,6 +215,7 @@ func (db *DB) loadMergeFiles() (uint32, error) {
 		destName := datafile.GetFileName(db.options.DirPath, fileID, datafile.DataFileSuffix)
 		var exist bool
 		if _, err := os.Stat(destName); err == nil {
+			vhook.FS("remove", destName, "")
 			if err = os.Remove(destName); err != nil {
 				return 0, err
 			}
@@ -221,6 +230,7 @@ func (db *DB) loadMergeFiles() (uint32, error) {
 			}
 			return 0, err
 		}
+		vhook.FS("rename", srcFile, destName)
 		if err := os.Rename(srcFile, destName); err != nil {
 			return 0, err
 		}
@@ -232,6 +242,7 @@ func (db *DB) loadMergeFiles() (uint32, error) {
 	if _, err := os.Stat(srcHintFile); err != nil {
 		return 0, err
 	}
+	vhook.FS("rename", srcHintFile, destHintFile)
 	if err := os.Rename(srcHintFile, destHintFile); err != nil {
 		return 0, err
 	}
